@@ -269,27 +269,32 @@ ApplyTo(mm) ==
      IF poll.upd[n] = Nil THEN mm[n]
      ELSE IF poll.upd[n] = Del THEN (IF n \in handles THEN mm[n] ELSE Nil)    \* a referenced secret is never dropped
      ELSE IF IsRec(mm[n]) THEN [mm[n] EXCEPT !.ver = poll.upd[n]] ELSE mm[n]]
+\* The staleness of a secret may be judged when the poll takes its snapshot (the pinned code) or again when the poll is applied:
+\* a secret that has become stale in between (C19: undeclared, an age set, not read for longer than it, no handle) may then go too.
+LateStale == {n \in Names : IsRec(m[n]) /\ poll.upd[n] # Del /\ Expired(n)}
+ApplyLate(mm, ld) == [n \in Names |-> IF ld /\ n \in LateStale THEN Nil ELSE ApplyTo(mm)[n]]
 
 \* end of the round: nothing applied if any request failed; otherwise install, drop, flush; all waiters return.
 \* xf: the cache is rewritten although the round installed nothing (allowed, see ExtraFlush); a failing cache write is then
 \* reported just as it is after an installing round
-PollFinishR(xf) ==
+PollFinishR(xf, ld) ==
   /\ poll # Nil /\ poll.todo = {} /\ NoPollReq
   /\ (xf => ~poll.failed /\ ~HasUpd /\ Flushes)
+  /\ (ld => ~poll.failed /\ LateStale # {} /\ ~xf)
   /\ IF poll.failed
      THEN /\ UNCHANGED <<m, cache>>
           /\ hist' = [hist EXCEPT !.pollErrs = @ + 1]                             \* metric: polls that failed
           /\ out' = Event("pollend", [res |-> "err", flushed |-> FALSE, waiters |-> poll.waiters])
-     ELSE /\ m' = ApplyTo(m)
-          /\ cache' = IF HasUpd \/ xf THEN Flush(m') ELSE cache
+     ELSE /\ m' = ApplyLate(m, ld)
+          /\ cache' = IF HasUpd \/ xf \/ ld THEN Flush(m') ELSE cache
           /\ hist' = [hist EXCEPT !.inst = [n \in Names |->
-                         IF poll.upd[n] \notin {Nil, Del} /\ IsRec(m[n]) THEN Append(hist.inst[n], poll.upd[n]) ELSE hist.inst[n]]]
-          /\ out' = Event("pollend", [res |-> (IF (HasUpd \/ xf) /\ Flushes /\ cache.wfail THEN "err" ELSE "ok"),
-                                      flushed |-> ((HasUpd \/ xf) /\ Flushes), waiters |-> poll.waiters])
+                         IF poll.upd[n] \notin {Nil, Del} /\ IsRec(m'[n]) THEN Append(hist.inst[n], poll.upd[n]) ELSE hist.inst[n]]]
+          /\ out' = Event("pollend", [res |-> (IF (HasUpd \/ xf \/ ld) /\ Flushes /\ cache.wfail THEN "err" ELSE "ok"),
+                                      flushed |-> ((HasUpd \/ xf \/ ld) /\ Flushes), waiters |-> poll.waiters])
   /\ poll' = Nil
   /\ call' = [c \in Callers |-> IF c \in poll.waiters THEN Nil ELSE call[c]]
   /\ UNCHANGED <<cfg, svc, handles, phase, closed, ini, lk, rq, now>>
-PollFinish == \E xf \in BOOLEAN : PollFinishR(xf)
+PollFinish == \E xf, ld \in BOOLEAN : PollFinishR(xf, ld)
 
 \* C13 says when the cache MUST be rewritten (after the initial fetch, a lookup, a poll that installed something, at
 \* shutdown); an implementation may also rewrite it at other moments -- always as one complete document of its current state
@@ -531,13 +536,13 @@ Bounded == \A k \in {j \in Callers : call[j] # Nil} :
 NotCollateral == (out.ev = "lookupend" /\ out.res = "ctx") => \A k \in out.retry : call[k] # Nil
 
 \* C19: a secret leaves the store only at the end of a successful poll, and only if it is undeclared,
-\* an expiry age is set, it had not been read for longer than that at the poll's snapshot, and no handle exists
+\* an expiry age is set, it had not been read for longer than that (at the poll's snapshot or at its end), and no handle exists
 DropRule ==
   \A n \in Names :
     (IsRec(m[n]) /\ ~IsRec(m'[n]) /\ phase = "running" /\ phase' = "running") =>
-       /\ poll # Nil /\ poll' = Nil /\ ~poll.failed /\ poll.upd[n] = Del
+       /\ poll # Nil /\ poll' = Nil /\ ~poll.failed
        /\ ~m[n].declared /\ cfg.expiry > 0 /\ n \notin handles
-       /\ poll.snap[n].expired
+       /\ ((poll.upd[n] = Del /\ poll.snap[n].expired) \/ Expired(n))        \* stale at the snapshot, or stale now
 NeverDropDeclared == phase = "running" => \A n \in cfg.declared : IsRec(m[n])
 
 StepProps == [][DropRule]_vars
